@@ -124,7 +124,7 @@ func c07Input(r *rand.Rand, f string, lo, hi int) []byte {
 }
 
 func c07ReadFaults(c *Ctx) {
-	per := c.N(12, 300)
+	per := c.N(16, 600)
 	idx := int64(0)
 	for _, f := range c06Formats {
 		cd := codecByName(f)
@@ -263,7 +263,7 @@ func genWritable(r *rand.Rand, kind int) writable {
 }
 
 func c07WriteFaults(c *Ctx) {
-	per := c.N(40, 2000)
+	per := c.N(60, 4000)
 	idx := int64(0)
 	for kind := 0; kind < 5; kind++ {
 		for i := 0; i < per; i++ {
